@@ -42,7 +42,8 @@ pub const TIMELINE_WRITES: &[WSym] = &[
     WSym { step: 3000, off: 0, size: 5, sync: true },
     WSym { step: 3000, off: 3000, size: 9, sync: false },
     WSym { step: 0, off: -3000, size: 1, sync: false },
-    WSym { step: 1, off: 0, size: 1, sync: true },
+    // (a zero-length sample: it occupies its place on the timeline like any other)
+    WSym { step: 1, off: 0, size: 0, sync: true },
     WSym { step: 3003, off: -3000, size: 5, sync: true },
     WSym { step: 100_000, off: 0, size: 1, sync: false },
     WSym { step: -1, off: 0, size: 2, sync: true },
@@ -52,7 +53,7 @@ pub const TIMELINE_WRITES: &[WSym] = &[
 pub const JITTER_WRITES: &[WSym] = &[
     WSym { step: 1, off: 0, size: 1, sync: true },
     WSym { step: 0, off: 0, size: 1, sync: false },
-    WSym { step: 2, off: 0, size: 1, sync: true },
+    WSym { step: 2, off: 0, size: 0, sync: true },
 ];
 
 #[derive(Clone, Debug, PartialEq, Eq, Serialize, Deserialize)]
@@ -375,6 +376,9 @@ fn check_segment(seg: &[u8], r: &mut RefModel, _cfg: &FCfg, out: &mut Vec<Issue>
     let n = r.fifo.len();
     if s.samples.len() != n {
         out.push(("C10", "segment/sample-count".into(), format!("trun describes {} samples, {} were queued", s.samples.len(), n)));
+        // with another number of samples the run's decode-time differences cannot be the
+        // submitted ones either
+        out.push(("C11", "segment/decode-time-differences-missing".into(), format!("trun has {} entries for {} accepted samples: the submitted decode-time differences are not all present", s.samples.len(), n)));
         r.prev = None;
         return;
     }
@@ -425,12 +429,15 @@ fn check_segment(seg: &[u8], r: &mut RefModel, _cfg: &FCfg, out: &mut Vec<Issue>
         let cts = q.pts as i128 - q.dts as i128;
         if cts.abs() < (1i128 << 31) && ts.cts.map(|c| c as i128) != Some(cts) {
             out.push(("C11", "segment/composition-offset".into(), format!("sample {i}: trun offset {:?}, pts-dts = {cts}", ts.cts)));
+            // the sample a reader reconstructs differs from the accepted write ("altered")
+            out.push(("C10", "segment/sample-altered/presentation-time".into(), format!("sample {i}: a reader following the trun version and flags gets pts-dts = {:?}, the accepted write had {cts}", ts.cts)));
         }
         match ts.flags {
             Some(f) => {
                 let non_sync = f & 0x0001_0000 != 0;
                 if non_sync == q.sync {
                     out.push(("C11", "segment/sync-flag".into(), format!("sample {i}: flags {f:#x} (non-sync={non_sync}) but submitted sync={}", q.sync)));
+                    out.push(("C10", "segment/sample-altered/sync-flag".into(), format!("sample {i}: flags {f:#x} but submitted sync={}", q.sync)));
                 }
             }
             None => out.push(("C11", "segment/no-sample-flags".into(), format!("sample {i} has no flags"))),
